@@ -216,6 +216,9 @@ pub fn c17(args: &Args) -> i32 {
     quiet_panics();
     if let Some(p) = &args.replay {
         let j = read_replay(p);
+        if j["case"]["scenario"].is_object() {
+            return crate::e4_se::replay(args, "C17");
+        }
         let h: Vec<K17> = serde_json::from_value(j["case"]["history"].clone()).expect("history");
         return match c17_history(&h) {
             Ok(_) => {
@@ -235,7 +238,7 @@ pub fn c17(args: &Args) -> i32 {
     }
     alpha.extend([K17::InsB(0), K17::Schema(0), K17::Save, K17::Restart]);
     let depth = if run.quick() { 4 } else { 5 };
-    run.set_rule("sequential leg: all histories (shortlex) up to the depth bound over 14 symbols on two knowledge graphs {create k, drop k, k: ins a, k: del a, k: +rule} x {k1,k2} + {k1: ins b, k1: +schema, save_all, restart}, plus a final restart, on a real StorageEngine/Handler (auto-create off); after every step the listed KGs and each KG's facts, rule and schema must equal the reference model: an operation on one KG never changes the other, a dropped KG (and its data) never reappears after restart or re-creation, writes to an absent KG are refused. non-trivial = histories that create a KG and write to it; states = distinct (model, depth)");
+    run.set_rule("sequential leg: all histories (shortlex) up to the depth bound over 14 symbols on two knowledge graphs {create k, drop k, k: ins a, k: del a, k: +rule} x {k1,k2} + {k1: ins b, k1: +schema, save_all, restart}, plus a final restart, on a real StorageEngine/Handler (auto-create off); after every step the listed KGs and each KG's facts, rule and schema must equal the reference model: an operation on one KG never changes the other, a dropped KG (and its data) never reappears after restart or re-creation, writes to an absent KG are refused. non-trivial = histories that create a KG and write to it; states = distinct (model, depth). INTERLEAVING leg (E4): insert || drop, insert || drop;create, insert || drop of another KG, create || create, drop || query (thorough: 3 threads) on one real engine at the storage-engine and persist scheduling points, all schedules with at most B preemptions; results and final state linearizable against the set model, restart equals the served state (dropped data never reappears), and the directory copied at every step recovers to an explained state");
     let states = std::sync::Mutex::new(BTreeSet::new());
     let mut traces = 0u64;
     let mut transitions = 0u64;
@@ -269,11 +272,19 @@ pub fn c17(args: &Args) -> i32 {
         }
         completed = len;
     }
-    run.put("states", json!(states.lock().unwrap().len()));
-    run.put("transitions", json!(transitions));
-    run.put("traces_validated_against_impl", json!(traces));
+    // interleaving leg (E4): insert || drop (|| re-create) on the real engine, crash image at every step
+    let bound = if run.quick() { 2 } else { 3 };
+    let (sched, steps, imgs, dl, b) = crate::e4_se::explore_scenarios(&run, "C17", bound);
+    run.put("states", json!(states.lock().unwrap().len() as u64 + steps));
+    run.put("transitions", json!(transitions + steps));
+    run.put("traces_validated_against_impl", json!(traces + sched));
     run.put("max_depth_completed", json!(completed));
     run.put("depth_bound", json!(depth));
+    run.put("interleaving_schedules", json!(sched));
+    run.put("interleaving_scheduling_points", json!(steps));
+    run.put("interleaving_crash_images_recovered", json!(imgs));
+    run.put("interleaving_deadlocks", json!(dl));
+    run.put("interleaving_preemption_bound_completed", json!(b));
     run.finish()
 }
 
